@@ -45,7 +45,7 @@ fn main() {
             }
             rich::run(
                 &mut ctx,
-                &rich::RichOpts { n: num("n", 200) as usize, seed: num("seed", 1), tree, arbitrary_sel: get("arbsel", "0.2").parse().unwrap(), bad_paths: true, also_verify_issued: true, xfmt: get("xfmt", "0") == "1", only_issue: get("only", "") == "issue", plant: get("plant", "0").parse().unwrap(), decoy_on: get("decoy", "0") == "1", kb_on: get("kb", "0") == "1", rekb: get("rekb", "0") == "1" },
+                &rich::RichOpts { n: num("n", 200) as usize, seed: num("seed", 1), tree, arbitrary_sel: get("arbsel", "0.2").parse().unwrap(), bad_paths: true, also_verify_issued: true, xfmt: get("xfmt", "0") == "1", only_issue: get("only", "") == "issue", plant: get("plant", "0").parse().unwrap(), decoy_on: get("decoy", "0") == "1", kb_on: get("kb", "0") == "1", rekb: get("rekb", "0") == "1", time: get("time", "0") == "1" },
             );
         }
         "attack" => attack::run(
